@@ -530,8 +530,11 @@ func run(seed int64, n int, dir string, _ []string) {
 		pausedRMW(o, bin, scratch)
 		pausedCreate(o, bin, scratch)
 		accessForms(o, bin, scratch)
+		heldAtStep(o, bin, scratch) // giveup.go: the waiting time / a signal ends inside the successful attempt
 	}
 	lockTimeouts(o, scratch, 2+n/100)
+	giveUpInProcess(o, scratch)
+	cancelAt(o, scratch)
 	controlFileVisibility(o, g, scratch)
 	for it := 0; it < n; it++ {
 		nproc := 2 + g.Intn(2)
